@@ -614,7 +614,7 @@ func (c *c18Run) one(name, unit string, kind c18Kind, opt c18Opt, legacy bool, s
 	defer func() { model.NameValidationScheme = saved }() //nolint:staticcheck
 	c.handled = c.handled[:0]
 
-	enum.Guard("process-death|scrape|"+kind.id+"|"+ncls, cas, r.Here())
+	enum.Guard("process-death|scrape|"+counterClass(kind)+"|"+ncls, cas, r.Here())
 	defer enum.Unguard()
 
 	// ---- the system under test, fresh per case
@@ -648,7 +648,7 @@ func (c *c18Run) one(name, unit string, kind c18Kind, opt c18Opt, legacy bool, s
 	r.Eval()
 	ms, panicked, _ := collectDirect(reg.got)
 	if panicked != nil {
-		r.FailHere("panic|Collect|"+kind.id+"|"+ncls, cas, "collector.Collect panicked: %v", panicked)
+		r.FailHere("panic|Collect|"+counterClass(kind)+"|"+ncls, cas, "collector.Collect panicked: %v", panicked)
 		return
 	}
 	rr := prometheus.NewRegistry()
@@ -782,11 +782,7 @@ func (c *c18Run) judge(s scrape, cas c18Case, kind c18Kind, opt c18Opt, legacy b
 		okName = okName || fam.GetName() == w
 	}
 	if !okName {
-		ck := "non-counter"
-		if kind.counter {
-			ck = "counter"
-		}
-		r.FailHere("name|"+ck+"|"+ncls+"|"+ucls+"|"+opt.namingGroup(), cas, "%s: family name %q, the property admits %q (scheme %s)", s.what, fam.GetName(), wantNames, sch)
+		r.FailHere("name|"+counterClass(kind)+"|"+ncls+"|"+ucls+"|"+opt.namingGroup(), cas, "%s: family name %q, the property admits %q (scheme %s)", s.what, fam.GetName(), wantNames, sch)
 	}
 
 	// ---- series: labels and values equal the SDK's aggregated view
@@ -873,6 +869,13 @@ func kvID(kvs []attribute.KeyValue) string {
 	}
 	sort.Strings(p)
 	return strings.Join(p, ",")
+}
+
+func counterClass(k c18Kind) string {
+	if k.counter {
+		return "counter"
+	}
+	return "non-counter"
 }
 
 // dropClass: class of a series that is missing from the scrape, for finding keys.
